@@ -1,3 +1,5 @@
+(* Extraction of the model and of the Spec definitions used as oracle.  The only directives are those of
+   ExtrOcamlBasic, ExtrOCamlInt63 and ExtrOCamlFloats (listed in DESIGN.md, section 8). *)
 From Coq Require Import ExtrOcamlBasic ExtrOCamlInt63 ExtrOCamlFloats.
-Require Import AS.Base.Prelude AS.Base.Hex AS.Model.DeviceTools AS.Spec.Sign AS.Model.Bridge AS.Model.ScheduleTools AS.Extract.Entry.
-Extraction "model.ml" unhexlify sign_packet_with_crc_key check_sign parse_datagram_show calc_duration entry_breeze entry_caps entry_op entry_schedules entry_bridge entry_client check_duration.
+Require Import AS.Extract.Entry.
+Extraction "model.ml" dispatch.
